@@ -16,7 +16,7 @@ import threading
 import time
 
 from vlib import c15util as U
-from vlib.common import sha, Reporter, build_tool, run_tool, workdir, MachineryError, pmap, BACKENDS, default_configs, BUILD, REPO
+from vlib.common import VERIF, _repo_tag, sha, Reporter, build_tool, run_tool, workdir, MachineryError, pmap, BACKENDS, default_configs, BUILD, REPO
 
 PER_FILE = 50
 FAMS = ["prelude", "a", "b", "c", "d", "e"]
@@ -362,7 +362,7 @@ def run(tier):
     rep = Reporter("C15", tier, "exploration")
     build_tool()
     wd = workdir("C15")
-    rdir = os.path.join(os.path.dirname(os.path.dirname(os.path.abspath(__file__))), "replays", "C15")
+    rdir = os.path.join(VERIF, "replays", "C15") if REPO == "/repo" else os.path.join(BUILD, "replays" + _repo_tag(), "C15")   # = Reporter's
     if os.path.isdir(rdir):                 # witnesses of earlier runs: every violation of this run is written afresh
         for f in os.listdir(rdir):
             if f.endswith(".json"):
